@@ -89,11 +89,15 @@ def check_decoder_side(ctx, rep, R3="I3", R4="I4"):
 
     class H(Hooks):
         def on_call(self, eng, fr, node, callee, args, kwargs, st):
-            if isinstance(callee, tuple) and callee[0] == "ext" and callee[1] == "builtins.next" and len(args) == 1:
+            if isinstance(callee, tuple) and callee[0] == "ext" and callee[1] == "builtins.next" and len(args) in (1, 2):
                 k = sum(1 for t in st.tags if t[0] in ("sym", "end"))
-                eng._raise(fr, node, "StopIteration", _tag(st, ("end", k)))
                 s2 = _tag(st, ("sym", k))
-                return [(s2, Tup([Unk(("pos", k)), Unk(("symbol", k))]))]
+                out = [(s2, Tup([Unk(("pos", k)), Unk(("symbol", k))]))]
+                if len(args) == 1:
+                    eng._raise(fr, node, "StopIteration", _tag(st, ("end", k)))
+                else:
+                    out.append((_tag(st, ("end", k)), args[1]))
+                return out
             return None
 
     def _tag(st, t):
@@ -166,10 +170,25 @@ def check_encoder_side(ctx, rep, R5="I5"):
     class H5(Hooks):
         def __init__(self):
             self.loop = None
+            self.idx_of = {}
+
+        def on_loop_head(self, eng, fr, node, head):
+            if fr.depth == 0:
+                head.tags = ()
+            return head
 
         def on_loop(self, eng, fr, node, syms, entered, back, exits, breaks):
             if fr.depth == 0 and self.loop is None:
                 self.loop = dict(node=node, syms=syms, entered=entered, back=back, exits=exits, breaks=breaks)
+
+        def on_call(self, eng, fr, node, callee, args, kwargs, st):
+            if isinstance(callee, tuple) and callee[0] == "method" and callee[1] in ("append", "insert") and fr.depth == 0 and args:
+                op_ = "append" if callee[1] == "append" else ("insert0" if isinstance(args[0], Num) and args[0].lin.is_const() and args[0].lin.k == 0 else "insert")
+                s2 = st.copy()
+                s2.tags = st.tags + (("digit", args[-1], op_),)
+                s2.epoch += 1
+                return [(s2, Con(None))]
+            return None
     h5 = H5()
     eng = Engine(ctx, h5)
     idxp = gsi.posparams[0]
@@ -195,48 +214,52 @@ def check_encoder_side(ctx, rep, R5="I5"):
     else:
         probs = []
         head = Lin.var(lp["syms"][idxp]) if idxp in lp["syms"] else None
+        B = SPEC.INDEX_BASE
         if head is None:
             probs.append("loop does not update the index")
         else:
-            if not lp["entered"] or not all(s.entails(ge(head, 1)) or s.entails(le(head, -1)) or True for s in lp["entered"]):
-                pass
+            qt, rt = ("div", head.key(), B), ("mod", head.key(), B)
             for b in lp["back"]:
                 newv = num_of(b.env.get(idxp))
-                q = ("div", head.key(), SPEC.INDEX_BASE)
-                if newv is None or not b.entails(eq(newv, Lin.var(q))):
+                if newv is None or not b.entails(eq(newv, Lin.var(qt))):
                     probs.append("index is not floor-divided by 16 per digit")
-            # appended digit: find list variables grown by exactly one element
-            grown = False
-            for b in lp["back"]:
-                for nm, v in b.env.items():
-                    pass
-        # digit append: syntactic-semantic: an append of INDEX_ALPHABET[index % base] in the loop body
-        apps = [c for c in ast.walk(lp["node"]) if isinstance(c, ast.Call) and isinstance(c.func, ast.Attribute)
-                and c.func.attr in ("append", "insert")]
-        good_digit = False
-        for c in apps:
-            a = c.args[-1]
-            if isinstance(a, ast.Subscript) and isinstance(a.slice, ast.BinOp) and isinstance(a.slice.op, ast.Mod):
-                tab = ctx.db.resolve_dotted(gsi.module, a.value)
-                if tab and tab[0] == "global" and tab[2] == "INDEX_ALPHABET":
-                    div = _fold_int(ctx, gsi, a.slice.right)
-                    if div == SPEC.INDEX_BASE and unparse(a.slice.left) == idxp:
-                        good_digit = True
-                        front = c.func.attr == "insert" and isinstance(c.args[0], ast.Constant) and c.args[0].value == 0
-                        # big-endian: appended then reversed, or inserted at the front
-                        rets = [r for r in own_nodes(gsi.node) if isinstance(r, ast.Return) and r.value is not None
-                                and not isinstance(r.value, ast.List)]
-                        rev = any(isinstance(r.value, ast.Subscript) and isinstance(r.value.slice, ast.Slice)
-                                  and isinstance(r.value.slice.step, ast.UnaryOp) for r in rets) or \
-                            any(isinstance(r.value, ast.Call) and unparse(r.value.func) in ("reversed", "list")
-                                and "reversed" in unparse(r.value) for r in rets)
-                        if not (front or rev):
-                            probs.append("digits are produced least-significant first but not reversed (must be big-endian)")
-        if not good_digit:
-            probs.append("digit is not INDEX_ALPHABET[index % 16]")
-        test_ok = isinstance(lp["node"], ast.While) and (unparse(lp["node"].test) in (idxp, "%s > 0" % idxp, "%s != 0" % idxp))
-        if not test_ok:
-            probs.append("loop does not run while the remaining index is non-zero")
+                digs = [t for t in b.tags if t[0] == "digit"]
+                if len(digs) != 1:
+                    probs.append("not exactly one digit is produced per iteration")
+                    continue
+                _, val, op = digs[0]
+                okd = False
+                if isinstance(val, Unk) and isinstance(val.term, tuple) and val.term[0] == "item" and str(val.term[1]).endswith("INDEX_ALPHABET"):
+                    o_ = eng.origin.get(val.term)
+                    if o_ and o_[0] == "folded-item" and isinstance(o_[2], Num) and b.entails(eq(o_[2].lin, Lin.var(rt))):
+                        okd = True
+                if not okd:
+                    probs.append("digit is not INDEX_ALPHABET[index % 16]")
+                if op == "append":
+                    h5.order = "lsb-first"
+                elif op == "insert0":
+                    h5.order = "msb-first"
+                else:
+                    probs.append("digits are not collected by append / insert(0, ...)")
+            # big-endian result
+            rev = False
+            for st_, v in fr.returns:
+                if isinstance(v, Unk):
+                    o = eng.origin.get(v.term)
+                    if o and o[0] == "slice" and not o[2] and not o[3] and len(o[4]) == 1 and isinstance(o[4][0], Num) \
+                            and o[4][0].lin.is_const() and o[4][0].lin.k == -1:
+                        rev = True
+                    if isinstance(v.term, tuple) and v.term[0] == "ext" and v.term[1] in ("reversed",):
+                        rev = True
+            if getattr(h5, "order", None) == "lsb-first" and not rev:
+                probs.append("digits are produced least-significant first but not reversed (must be big-endian)")
+            if getattr(h5, "order", None) == "msb-first" and rev:
+                probs.append("digits are produced most-significant first and then reversed")
+            # loop runs while the remaining index is non-zero
+            for ex_ in lp["exits"]:
+                hv = Lin.var(lp["syms"][idxp])
+                if not ex_.entails(eq(hv, 0)):
+                    probs.append("loop may stop while the remaining index is non-zero")
         rep.ob(R5, not probs, lp["node"], gsi, construct="digit loop", how="digit = index % 16 looked up in INDEX_ALPHABET; index //= 16; big-endian",
                witness="; ".join(sorted(set(probs))) or None, nontrivial=True,
                key="loop/" + ("ok" if not probs else "+".join(sorted(set(p[:30] for p in probs)))))
@@ -251,6 +274,10 @@ def run(ctx, rep):
     check_encoder_side(ctx, rep)
     rep.floor("I5", 3)
     rep.analysed.update({"arities": arities, "index_reader": reader.qual})
+
+
+def _terms_of_key(k):
+    return []
 
 
 def _fold_int(ctx, f, node):
